@@ -113,6 +113,79 @@ def clsStr : AckClass → String
 def cb? : String → Option Cb
   | "ok" => some .ok | "code" => some .code | "evm" => some .evmFail | _ => none
 
+/-! ### genesis documents -/
+
+def takeItems (arity : Nat) : Nat → List String → Option (List (List String) × List String)
+  | 0, rest => some ([], rest)
+  | n+1, rest =>
+    if rest.length < arity then none else
+    match takeItems arity n (rest.drop arity) with
+    | some (items, r) => some (rest.take arity :: items, r)
+    | none => none
+
+def genClient? : List String → Option (Str × Client × Bool)
+  | [ch, "tss", ok, a] => do let ch ← unhex ch; let a ← unhex a; let ok ← bool? ok; pure (ch, .tss a, ok)
+  | [ch, "oth", ok, _] => do let ch ← unhex ch; let ok ← bool? ok; pure (ch, .other 0, ok)
+  | _ => none
+
+def genCons? : List String → Option (Str × Nat × Nat)
+  | [ch, h, id] => do let ch ← unhex ch; let h ← h.toNat?; let id ← id.toNat?; pure (ch, h, id)
+  | _ => none
+
+def genMeta? : List String → Option (Str × GKey × GVal)
+  | [ch, "cstss", a, _] => do let ch ← unhex ch; let a ← unhex a; pure (ch, .clientState, .client (.tss a))
+  | [ch, "csoth", _, id] => do let ch ← unhex ch; let id ← id.toNat?; pure (ch, .clientState, .raw id)
+  | [ch, "cons", h, id] => do let ch ← unhex ch; let h ← h.toNat?; let id ← id.toNat?; pure (ch, .consensus h, .cons id)
+  | [ch, "raw", k, id] => do let ch ← unhex ch; let k ← unhex k; let id ← id.toNat?; pure (ch, .other k, .raw id)
+  | _ => none
+
+def genRelayers : Nat → List String → Option (List Relayer × List String)
+  | 0, rest => some ([], rest)
+  | n+1, addr :: nc :: rest => do
+    let addr ← unhex addr
+    let nc ← nc.toNat?
+    let (chains, r1) ← parseList nc rest
+    match r1 with
+    | na :: r2 => do
+      let na ← na.toNat?
+      let (addrs, r3) ← parseList na r2
+      let (more, r4) ← genRelayers n r3
+      pure (⟨addr, chains, addrs⟩ :: more, r4)
+    | [] => none
+  | _, _ => none
+
+def dumpClients (cs : Clients) : String :=
+  if cs.isEmpty then "-" else
+  joinWith "|" (cs.map (fun kc => hex kc.1 ++ "=" ++ (match kc.2 with | .tss a => "t:" ++ hex a | .other _ => "o")))
+
+/-- `genesis <class> <native> C n … S p … M m … R k …` -/
+def parseGenesis (fs : List String) : Option GenDoc :=
+  match fs with
+  | _cls :: native :: "C" :: n :: rest => do
+    let native ← unhex native
+    let n ← n.toNat?
+    let (cl, r1) ← takeItems 4 n rest
+    let clients ← cl.mapM genClient?
+    match r1 with
+    | "S" :: p :: r2 => do
+      let p ← p.toNat?
+      let (co, r3) ← takeItems 3 p r2
+      let cons ← co.mapM genCons?
+      match r3 with
+      | "M" :: m :: r4 => do
+        let m ← m.toNat?
+        let (me, r5) ← takeItems 4 m r4
+        let metas ← me.mapM genMeta?
+        match r5 with
+        | "R" :: k :: r6 => do
+          let k ← k.toNat?
+          let (rel, r7) ← genRelayers k r6
+          if r7.isEmpty then pure ⟨native, clients, cons, metas, rel⟩ else none
+        | _ => none
+      | _ => none
+    | _ => none
+  | _ => none
+
 def runMsg (st : St) (m : Msg) : St × String :=
   let (st', ok) := deliver asciiFold st m
   if !ok then (st, "rej") else
@@ -159,6 +232,12 @@ def stepMsg (st : St) (line : String) : St × String :=
         | none => (st, "bad-op")
       | _ => (st, "bad-op")
     | _, _, _ => (st, "bad-op")
+  | "genesis" :: rest =>
+    match parseGenesis rest with
+    | none => (st, "bad-op")
+    | some d =>
+      let (st', ok) := startFrom st d
+      if ok then (st', "ok K:" ++ dumpClients st'.clients ++ " G:" ++ dumpReg st'.reg) else (st, "invalid")
   | ["restart", _mode] => (st, "ok")     -- module-level or whole-app: the identity on everything C06 talks about
   | "regdry" :: _mode :: addrOK :: addr :: nc :: rest =>
     -- mode (drop | fail | gov) is how the harness discards the context branch; the model: identity on the state
